@@ -421,6 +421,29 @@ func runROOTSWAP(c *Ctx) {
 	if n == 0 {
 		c.Violation(F, P.Pos(F.Pos()), "root not swapped", "flush no longer replaces the root by its name: every later MakeRoot re-walks (and IsDirty/clean-skip lose their anchor)")
 	}
+	// the swap has to happen in the tree MakeRoot was called on: the persisting function runs on MakeRoot's own
+	// receiver, not on a copy or a clone of it (whose root is swapped and then thrown away, so the tree itself stays
+	// dirty and every later MakeRoot writes everything again)
+	if mk := c.MustFunc("(*Mast).MakeRoot"); mk != nil {
+		reach := c.Facts.Reach(mk)
+		for _, cs := range c.P.Callers[F] {
+			caller := cs.Parent()
+			if !reach[ir.Outermost(caller)] && ir.Outermost(caller) != mk {
+				continue
+			}
+			args := cs.Common().Args
+			if len(args) == 0 || len(caller.Params) == 0 {
+				continue
+			}
+			recv := ir.ResolveCell(args[0])
+			if p, ok := recv.(*ssa.Parameter); ok && p == caller.Params[0] && ir.IsPtrToNamed(p.Type(), "Mast") {
+				c.OK(P.InstrPos(cs), ir.FuncName(caller)+" persists its own receiver", "the persisting function is called on the parameter the tree came in as", false)
+			} else {
+				c.Violation(caller, P.InstrPos(cs), "a copy of the tree is persisted instead of the tree",
+					"the function that writes the nodes and swaps the root runs on "+pathDesc(ir.Sym(args[0]))+", not on the tree MakeRoot was called on: the copy becomes clean and is dropped, the tree itself keeps its unsaved nodes, IsDirty stays true and every later MakeRoot rewrites everything modified since the tree was loaded")
+			}
+		}
+	}
 }
 
 // ---- CLEANMARK ------------------------------------------------------------------------
